@@ -190,6 +190,13 @@ def build(prop, seed, prof):
             item.update({'kind': 'p_state', 'modes': gen.pick(rng, [None, {'master_identifier': ''},
                                                                    {'fsm_statecode': 2, 'fsm_statename': 'ELECTION'},
                                                                    {'degraded_mode': True}])})
+        elif kind == 'discovery':
+            # a DISCOVERY notification (discovery mode: what the multicast receiver hands over) naming this peer: under its
+            # own identity, under a new nick identifier (restarted with another Supervisor identifier), under its nick
+            # with another address, or naming another declared instance. All of them are about KNOWN instances, so a
+            # correct candidate check refuses every one
+            item.update({'kind': 'p_raw', 'comm_type': 'SupvisorsNotification', 'header': 4, 'body': {}})
+            claim = gen.pick(rng, [None, 'newnick', 'newnick', 'newnick', 'nickmoved'] + [x for x in everyone if x != p])
         elif kind == 'slowlink':
             # slow answers of a peer: the hand-shake queries and their responses take seconds
             a, b = gen.pick(rng, reals), p
